@@ -199,3 +199,65 @@ func H_C12_coarse_two() {
 	vsym.AssertNear(sumIn+stored+ch, (down.Get1(0)+down.Get1(1))*dt+stored2+ch2, c12Abs, c12Rel, "mass-balance-closes-over-two-steps")
 	vsym.Assert(down.Get1(1) >= 0 && stored2 >= 0 && ch2 >= 0, "loads-and-store-nonnegative")
 }
+
+// H_C12_lumped_chain: THREE steps of LumpedConstituentTransport in one call - any mix of ordinary
+// days and flush days (working volume below the minimum) in any order - give, step by step, the
+// downstream load, the reported point source and the final stored mass of three one-step calls
+// chained through the returned stored mass.  With the one-step balance (H_C12_lumped) this is the
+// balance over any period, and it shows that the loop carries nothing but the stored mass from one
+// step to the next (a concentration left over from the previous day, say).
+//vsym:prop=C12 tier=quick ints=int floats=real timeout=60
+func H_C12_lumped_chain() {
+	const T = 3
+	in, lat, outQ, vol := rtOut(T), rtOut(T), rtOut(T), rtOut(T)
+	stored, point, dt := c12nn("stored"), c12nn("pointInput"), vsym.Float64("dt")
+	vsym.Assume(dt > 0)
+	var a, b, q, v [T]float64
+	for t := 0; t < T; t++ {
+		a[t], b[t], q[t], v[t] = c12nn("inLoad"), c12nn("latLoad"), c12nn("outflow"), c12nn("volume")
+		in.Set1(t, a[t])
+		lat.Set1(t, b[t])
+		outQ.Set1(t, q[t])
+		vol.Set1(t, v[t])
+	}
+	outL, ps := rtOut(T), rtOut(T)
+	whole := LumpedConstituentTransport(in, lat, outQ, vol, stored, 0, point, dt, outL, ps)
+	vsym.Reach("run")
+	m := stored
+	for t := 0; t < T; t++ {
+		o1, p1 := rtOut(1), rtOut(1)
+		m = LumpedConstituentTransport(c12one(a[t]), c12one(b[t]), c12one(q[t]), c12one(v[t]), m, 0, point, dt, o1, p1)
+		vsym.AssertNear(outL.Get1(t), o1.Get1(0), c12Abs, c12Rel, "step-of-a-long-run-equals-the-chained-single-step")
+		vsym.AssertNear(ps.Get1(t), p1.Get1(0), c12Abs, c12Rel, "step-of-a-long-run-equals-the-chained-single-step")
+	}
+	vsym.AssertNear(whole, m, c12Abs, c12Rel, "final-store-of-a-long-run-equals-the-chained-single-steps")
+}
+
+// H_C12_decay_chain: the same for ConstituentDecay (three steps, flush days allowed).
+//vsym:prop=C12 tier=quick ints=int floats=real timeout=60
+func H_C12_decay_chain() {
+	const T = 3
+	in, lat, inQ, outQ, vol := rtOut(T), rtOut(T), rtOut(T), rtOut(T), rtOut(T)
+	stored, hl, dt := c12nn("stored"), vsym.Float64("halflife"), vsym.Float64("dt")
+	vsym.Assume(dt > 0)
+	var a, b, qi, q, v [T]float64
+	for t := 0; t < T; t++ {
+		a[t], b[t], qi[t], q[t], v[t] = c12nn("inLoad"), c12nn("latLoad"), c12nn("inflow"), c12nn("outflow"), c12nn("volume")
+		in.Set1(t, a[t])
+		lat.Set1(t, b[t])
+		inQ.Set1(t, qi[t])
+		outQ.Set1(t, q[t])
+		vol.Set1(t, v[t])
+	}
+	dec, outL := rtOut(T), rtOut(T)
+	whole := constituentDecay(in, lat, inQ, outQ, vol, stored, 0, hl, dt, dec, outL)
+	vsym.Reach("run")
+	m := stored
+	for t := 0; t < T; t++ {
+		d1, o1 := rtOut(1), rtOut(1)
+		m = constituentDecay(c12one(a[t]), c12one(b[t]), c12one(qi[t]), c12one(q[t]), c12one(v[t]), m, 0, hl, dt, d1, o1)
+		vsym.AssertNear(outL.Get1(t), o1.Get1(0), c12Abs, c12Rel, "step-of-a-long-run-equals-the-chained-single-step")
+		vsym.AssertNear(dec.Get1(t), d1.Get1(0), c12Abs, c12Rel, "step-of-a-long-run-equals-the-chained-single-step")
+	}
+	vsym.AssertNear(whole, m, c12Abs, c12Rel, "final-store-of-a-long-run-equals-the-chained-single-steps")
+}
